@@ -470,6 +470,18 @@ def case_pipeline(case):
                 derived = False
             if derived:
                 r.close("stored output still == trend + denormalize(mean + raw) after deriving another field with process=True", np.array(obj.field, dtype=float), exp, rtol=1e-9, atol=1e-12)
+    # fit_normalizer: the normalizer is fitted to the data it acts on (conditioning values minus trend)
+    if kind == "Krige" and ncls in ("BoxCox", "YeoJohnson") and not callable(mean):
+        cvp = np.asarray(obj.cond_val, dtype=float) + 3.0  # (large enough to stay in the domain after detrending)
+        dt = cvp - np.asarray(trend_f(*obj.cond_pos), dtype=float)
+        if np.all(dt > 0.3):
+            try:
+                kf = gs.Krige(obj.model, obj.cond_pos, cvp, mean=mean, normalizer=getattr(gn, ncls)(), trend=trend, unbiased=False, fit_normalizer=True)
+                nf = getattr(gn, ncls)()
+                nf.fit(dt)
+                r.close("Krige(fit_normalizer=True): fitted parameter == Normalizer.fit(conditioning values - trend)", float(kf.normalizer.lmbda), float(nf.lmbda), rtol=1e-6, atol=1e-8, trendkind=case["trend"])
+            except ValueError:
+                pass
     # the mean of the kriging system goes through the same pipeline (without the trend)
     if kind == "Krige" and not callable(mean):
         cp_, cv_ = obj.cond_pos, obj.cond_val
